@@ -50,6 +50,8 @@ def run(ctx):
         rule_flush(ctx, M, "ForEachConsumer", "C13.FLUSH")
         rule_drive(ctx, M, "C13.DRIVE")
         rule_limit(ctx, M, "for_each", "ForEachConsumer", "C13.LIMIT")
+        from . import common as _common
+        _common.rule_no_shadow(ctx, M, {"enumerate", "limit", "take", "map", "for_each", "try_for_each", "collect", "drive", "concurrency_limit", "co", "into_co_stream"}, "C13.LIMIT", "ConcurrentStream", receivers=_common.CS_TRAITS)
         adts = {M.consumers[n]["adt"] for n in ("ForEachConsumer",) if n in M.consumers} | {
             a for a in M.F.adts_c if a.endswith("for_each::ForEachFut")}
         with ctx.renamed({"C02.OWN": "C13.OWN"}):
